@@ -395,5 +395,6 @@ def check(tier):
             ck.add_mutant(name, m, "interface", "harness.C09", "interface_job", dict(cases=[(0, "plain", 1)]))
         else:
             ck.add_mutant(name, m, "det", "harness.C09", "deterministic_job", dict(cases=[(2, 2, 2)]), fresh=True)
+    ck.validate = ['ssa', 'delay_ssa', 'delay_volume_ssa']
     ck.run()
     return ck.finish(replay=REPLAY)
